@@ -91,6 +91,7 @@ def gen_raw_row(rng):
 
 class Check(PropertyCheck):
     id = "C15"
+    thorough_mult = 3
     lean_modules = ["Svgbob.Properties.C15"]
     assumptions = [
         "model of escape_line/CellBuffer::from hand-written, tied by correspondence on generated rows and texts",
